@@ -461,6 +461,7 @@ func genPanicProgram(t *rapid.T) (panicCase, *mini.Unit) {
 }
 
 var worker *wk.Client
+var workerUses int
 
 func getWorker() *wk.Client {
 	if worker == nil {
@@ -472,7 +473,19 @@ func getWorker() *wk.Client {
 // checkPanic runs the program and compares the reported position.
 // skip != "" → generator/model defect or unusable run (never a violation).
 func checkPanic(k panicCase) (key, what, skip string) {
+	// The worker process accumulates address space over many compile+run
+	// requests and eventually dies on its RLIMIT_AS; that says nothing about the
+	// program, so it is recycled regularly and a request that ends with the
+	// worker dying is retried once on a fresh process.
+	if workerUses++; workerUses%40 == 0 && worker != nil {
+		worker.Close()
+		worker = nil
+	}
 	o := getWorker().Do("run", wk.Src{Name: k.Name, Src: k.Src})
+	if o.Kind != wk.OK && o.Kind != wk.Error {
+		fmt.Fprintf(os.Stderr, "worker outcome %s for %s - retrying once\n", tail(o.String(), 300), k.Name)
+		o = getWorker().Do("run", wk.Src{Name: k.Name, Src: k.Src})
+	}
 	var r wk.RunResult
 	switch o.Kind {
 	case wk.OK:
@@ -544,6 +557,7 @@ func TestPanicPosition(t *testing.T) {
 			if strings.HasPrefix(skip, "unusable") {
 				unusable++
 				s.Counter("inconclusive_run", 1)
+				fmt.Fprintf(os.Stderr, "UNUSABLE: %s\n", tail(skip, 400))
 			} else {
 				rejected++
 				s.Counter("rejected_generator_or_model", 1)
